@@ -1181,7 +1181,7 @@ class Sections:
                             self.badpos_one(role, cls, pos, v)
 
     # -- signalling option sweep ---------------------------------------------------------------
-    def sigopt_one(self, role, code, number, vi, only_ci=None):
+    def sigopt_one(self, role, code, number, vi, early=False, only_ci=None):
         rt = self.rt
         value = VALUE_SHAPES[vi]
         known = {rt.CSM: [(2, b"\x10\x00\x00"), (4, b"")], rt.PING: [], rt.PONG: [], rt.RELEASE: [(4, b"\x05")], rt.ABORT: [(2, b"\x03")]}[code]
@@ -1189,10 +1189,12 @@ class Sections:
         el = None if number & 1 else ("utf8" if is_utf8(value) else "non-utf8")
         token = b"\x77" if code in (rt.PING, rt.PONG) else b""
         sig = frame_item(rt, rt.Frame(code, token, opts, b""), elective=el)
-        items = [self.alpha["csm"], sig, self.alpha["getp"]]
+        # late: after a plain CSM; early: the option sits in the very first CSM of the connection
+        items = [sig, self.alpha["getp"]] if early else [self.alpha["csm"], sig, self.alpha["getp"]]
         data = b"".join(it.data for it in items)
-        cl = [("whole", [data]), ("single", [data[i : i + 1] for i in range(len(data))]), ("per-frame", chunk_cuts(data, [2, 2 + len(sig.data)]))]
-        self.run_stream("sigopt", role, items, cl, ["sigopt", role, code, number, vi], only_ci)
+        first = 0 if early else 2
+        cl = [("whole", [data]), ("single", [data[i : i + 1] for i in range(len(data))]), ("per-frame", chunk_cuts(data, [first, first + len(sig.data)]))]
+        self.run_stream("sigopt", role, items, cl, ["sigopt", role, code, number, vi, early], only_ci)
 
     def sigopt(self):
         rt = self.rt
@@ -1204,6 +1206,8 @@ class Sections:
                         k += 1
                         if self.mine(k):
                             self.sigopt_one(role, code, number, vi)
+                            if code == rt.CSM:
+                                self.sigopt_one(role, code, number, vi, early=True)
 
     # -- frames around the advertised Max-Message-Size -----------------------------------------
     OVERSIZE_VARIANTS = ["at-max", "max+1", "max+1-tkl8", "max+1-tkl0-late", "max+1-first", "max+4096"]
@@ -1659,7 +1663,7 @@ class Sections:
         elif k == "badpos":
             self.badpos_one(case[1], case[2], case[3], case[4], only_ci=case[5] if len(case) > 5 else None)
         elif k == "sigopt":
-            self.sigopt_one(case[1], case[2], case[3], case[4], only_ci=case[5] if len(case) > 5 else None)
+            self.sigopt_one(case[1], case[2], case[3], case[4], early=bool(case[5]), only_ci=case[6] if len(case) > 6 else None)
         elif k == "oversize":
             self.oversize_one(case[1], case[2], case[3], only_ci=case[4] if len(case) > 4 else None)
         elif k == "outgrid":
@@ -1686,13 +1690,13 @@ def run_shard(shard, rep, only=None):
         if only is not None:
             s.replay(only)
             return
+        s.short()  # first: its witnesses are the smallest
+        s.sigopt()
         s.lengths()
         s.badpos()
-        s.sigopt()
         s.oversize()
         s.outgoing()
         s.seq()
         s.e2e()
-        s.short()
     finally:
         env.close()
